@@ -286,6 +286,7 @@ class Outcome:
         self.samples = []
         self.dist = {}
         self.broken = []          # shards that could not be run
+        self.drift = []           # C15-style: outcome class differs from the model although nothing panicked (correspondence broken, no failing input)
 
 
 def compare_shard(pid, casefile, iout, mout, status, oc, nontrivial_key=None, keys=None, ref_from_model=False):
@@ -359,7 +360,12 @@ def compare_shard(pid, casefile, iout, mout, status, oc, nontrivial_key=None, ke
                 continue
             ib = project_equal(i, r)
             if ib:
-                oc.violations.append((line, i, m, r, ib))
+                if ref_from_model and "panic" not in i.get("res", ""):
+                    # nothing panicked: the property (no panic) is not violated by this input, but the implementation no longer
+                    # behaves like the model the theorems are about
+                    oc.drift.append((line, i, m))
+                else:
+                    oc.violations.append((line, i, m, r, ib))
         elif indom and kclass:
             ib = project_equal(i, r)
             if not ib:
@@ -535,6 +541,10 @@ def check(pid, tier, seed, replay=None):
             why.append({"correspondence": "corr_%s" % pid, "detail": corr_broken})
         if oc.broken:
             why.append({"correspondence": "corr_%s" % pid, "detail": [b[1] for b in oc.broken[:3]]})
+        if oc.drift:
+            why.append({"correspondence": "corr_%s" % pid,
+                        "detail": "%d cases end in a different outcome class (ok / err) than the model of the proved development, none of them in a panic" % len(oc.drift),
+                        "examples": [{"case": d[0], "implementation": d[1].get("res"), "model": d[2].get("res")} for d in oc.drift[:3]]})
         if why:
             path = write_replay(pid, {"property": pid, "no_failing_input_found": True, "broken": why,
                                       "explanation": "a proof obligation or the correspondence no longer checks; the search over %d cases found no failing input" % oc.evaluations})
